@@ -144,6 +144,13 @@ class C02(Base):
         al = ["<tl to='%s'>" % gen.READY_T, "</tl>", "<rm name='a'>", "</rm>", "<rm name='b'>", "x", " ", "\n", "<tl skip>", "é"]
         for s in gen.g_atoms_exhaustive("<", ">", quick(tier, 4, 5), al):
             yield self.mk(s, "<", ">", proto.DEFAULT_CFG, "tag-atoms")
+        # very long lines (no scan in the code may depend on a line being short)
+        for n_chars in (4095, 4096, 4097, 9000):
+            long = "q" * n_chars
+            for d in ("a\n<rm name='a' unwrap-block>\nif (x) { // %s\n  keep %s\n} // %s\n</rm>\nb\n" % (long, long, long),
+                      "a %s <rm name='a'>gone</rm> %s\n\nb\n" % (long, long),
+                      "%s\n<tl to='%s'>\n%s\n</tl>\n%s" % (long, gen.READY_T, long, long)):
+                yield self.mk(d, "<", ">", proto.DEFAULT_CFG, "long-lines")
         # condition attributes that are missing, valueless or empty, under target sets that contain the empty name
         al2 = ["<rm>", "<rm name>", "<rm name=''>", "</rm>", "<tl>", "<tl to>", "</tl>", "<rm name='a'>", "x", "\n"]
         for cfg in (Cfg(targets=("",)), Cfg(targets=("", "a")), Cfg(off="", targets=("",))):
@@ -328,11 +335,25 @@ class C05(Base):
             "`not ready` for the malformed classes; lenient spellings are compared with the model only; monotonicity pairs; "
             "non-trivial = canonical value within 1 day of the boundary, or a malformed/lenient class")
 
+    LONG = "w" * 4200 + " é " + "v" * 900
+
+    def probe(self, to, now):
+        """the probe document: mostly the plain block; now and then an inline element, or an unwrap-block whose wrapper
+        and inner lines are several thousand bytes long"""
+        tag = "<tl to='%s'>" % to
+        import zlib
+        h = zlib.crc32(repr((to, now)).encode()) % 64
+        if h == 1:
+            return "x " + tag + "y</tl> z\n"
+        if h == 2:
+            return "x\n" + tag[:-1] + " unwrap-block>\nif (a) { // " + self.LONG + "\n  " + self.LONG + "\n} // " + self.LONG + "\n</tl>\nz\n"
+        return probe_doc(tag)
+
     def mk(self, to, off, now, expect, label, nanos=0):
         cfg = Cfg(now=now, off=off, targets=(), nanos=nanos)
         reqs = [req("time", to, cfg=cfg, args=[2])]
         if "'" not in to and ">" not in to:
-            reqs.append(req("clean", probe_doc("<tl to='%s'>" % to), cfg=cfg))
+            reqs.append(req("clean", self.probe(to, now) if label.startswith("grid") else probe_doc("<tl to='%s'>" % to), cfg=cfg))
         return Case(label, reqs, {"replay": True, "to": to, "off": off, "now": now, "expect": expect, "nanos": nanos, "label": label},
                     key=(to, off, now, nanos))
 
@@ -385,7 +406,7 @@ class C05(Base):
                 return {"fail": "panic", "detail": v2, "nontrivial": True, "tags": ["panic"]}
             out = unhx(v2)
             src = describe_src(case.reqs[1])
-            cleaned = out == "x\nz\n"
+            cleaned = "<tl" not in out and "</tl>" not in out and out != src
             if not cleaned and out != src:
                 return {"fail": "C05-probe", "detail": "probe document neither removed nor untouched: %r" % out, "nontrivial": True, "tags": tags}
             if cleaned != got:
